@@ -45,6 +45,7 @@ vars == <<l, cfg, now, inb, produced, stored, berrs, injected, bk, failUntil, pe
 
 NoEnt == [v |-> "-", e |-> 0, src |-> "-"]
 NoExp == 999
+NoCell == [has |-> FALSE, c |-> 0, k |-> ""]
 
 At(f, k, d) == IF k \in DOMAIN f THEN f[k] ELSE d
 Put(f, k, v) == [x \in DOMAIN f \cup {k} |-> IF x = k THEN v ELSE f[x]]
@@ -111,10 +112,16 @@ C05(e) ==
 C06(e) ==
   /\ e.ev = "beWrite" =>
         IF IsRefresh(e) THEN e.ttl = cfg.UpdTTL
-        ELSE e.ttl = (IF At(cellOf, e.p, [has |-> FALSE, c |-> 0]).has THEN At(cellOf, e.p, [has |-> FALSE, c |-> 0]).c ELSE 0)
-  /\ e.ev = "ret" => e.ttl = (IF At(cellOf, e.p, [has |-> FALSE, c |-> 0]).has THEN At(cellOf, e.p, [has |-> FALSE, c |-> 0]).c ELSE 0)
+        ELSE e.ttl = (IF At(cellOf, e.p, NoCell).has THEN At(cellOf, e.p, NoCell).c ELSE 0)
+  /\ e.ev = "ret" => e.ttl = (IF At(cellOf, e.p, NoCell).has THEN At(cellOf, e.p, NoCell).c ELSE 0)
   /\ e.ev = "bexit" => IF e.bg THEN e.note = "" ELSE e.note \in {"", "deadline;cancellable;"}
   /\ (e.ev = "ret" /\ e.p \in skipP /\ e.err = "") => e.v \in At(produced, e.k, {})
+
+(* C09 (Failover part): every backend access a Get (or its background     *)
+(* build) makes is for the key the caller passed, whatever the caller does  *)
+(* with its buffer after Get returned.                                      *)
+C09(e) ==
+  e.ev \in {"beRead", "beWrite"} /\ e.p \in DOMAIN cellOf => e.k = cellOf[e.p].k
 
 C18(e) ==
   e.ev = "metric" =>
@@ -132,6 +139,7 @@ Guard(e) ==
     [] Prop = "C05" -> C05(e)
     [] Prop = "C06" -> C06(e)
     [] Prop = "C18" -> C18(e)
+    [] Prop = "C09" -> C09(e) /\ (e.ev = "quiesce" => e.n = 0)
     [] OTHER -> TRUE
 
 ---------------------------------------------------------------------------
@@ -152,7 +160,7 @@ Upd(e) ==
     [] e.ev = "call" ->
          /\ pend' = pend \cup {e.p}
          /\ skipP' = IF e.c = "skip" THEN skipP \cup {e.p} ELSE skipP
-         /\ cellOf' = Put(cellOf, e.p, [has |-> e.n = 1, c |-> e.ttl])
+         /\ cellOf' = Put(cellOf, e.p, [has |-> e.n = 1, c |-> e.ttl, k |-> e.k])
          /\ UNCHANGED <<cfg, now, inb, produced, stored, berrs, injected, bk, failUntil, lastRd, built, cnt>>
     [] e.ev = "ret" ->
          /\ pend' = pend \ {e.p}
@@ -180,8 +188,8 @@ Upd(e) ==
          /\ UNCHANGED <<cfg, now, produced, stored, berrs, injected, bk, failUntil, pend, skipP, cellOf, lastRd, built>>
     [] e.ev = "bexit" ->
          /\ inb' = Put(inb, e.k, At(inb, e.k, 0) - 1)
-         /\ LET co == At(cellOf, e.p, [has |-> FALSE, c |-> 0]) IN
-            cellOf' = IF co.has THEN Put(cellOf, e.p, [has |-> TRUE, c |-> FoldTTL(co.c, e.ttl)]) ELSE cellOf
+         /\ LET co == At(cellOf, e.p, NoCell) IN
+            cellOf' = IF co.has THEN Put(cellOf, e.p, [co EXCEPT !.c = FoldTTL(co.c, e.ttl)]) ELSE cellOf
          /\ IF e.c = "ok"
               THEN /\ produced' = Put(produced, e.k, At(produced, e.k, {}) \cup {e.v})
                    /\ built' = Put(built, e.p, e.v)
